@@ -260,6 +260,11 @@ def check(prop, tier, seed, out):
     out.assumptions += ["benchmark bodies are synthetic (const-generic fn items reading a spec table); the macro expansion path is covered by the generated-crate checks (C12)",
                         "virtual TSC clock for the bench action; regex filters restricted to syntax on which Python re and regex-lite agree"]
     out.require("judged_runs", sum(v for k, v in agg.items() if k.startswith("action_")), 100)
+    if prop in ("C13", "C15", "C16", "C17"):
+        # the macro-expansion path: the same oracles on generated crates
+        from . import cratecheck
+        g = cratecheck.macro_slice(prop, tier, seed, out)
+        out.require("generated_crate_nodes", g.get("nodes", 0), 200)
     if prop == "C13":
         out.require("cases_selected", agg.get("cases_selected", 0), 300)
         out.require("executions", agg.get("executions", 0), 300)
